@@ -1,6 +1,6 @@
 #!/bin/bash
 # Never-alarm rewrites that exercise the simulated primitives, with a long budget (C14 only).
 ROOT=$(cd "$(dirname "$0")/.." && pwd)
-for n in n1 n2 n4 n10 n11 n12 n13 n14 n8; do
+for n in n1 n2 n4 n10 n11 n12 n13 n14 n8 n15 n16 n18 n19 n20 n23 n24 n25 n26 n27 n28 n29 n31; do
   echo "=== $n"; "$ROOT/scripts/try_mutant.sh" "$ROOT/corpus-noalarm/$n.diff" C14 ${1:-240} 2>&1 | grep -v conda | grep -E "quick:|exit=|VIOL|HARNESS|UNSUPP|NONDET"
 done
